@@ -18,6 +18,8 @@ from concurrent.futures import ProcessPoolExecutor
 import multiprocessing as mp
 from .common import *
 from . import mps_gen as G
+from . import c05_gen
+from .c05_gen import regenerate      # setup.sh regenerates Gen/MpsCostGen.v through this name
 
 PRECS = [2, 4, 8]
 KNOWN_SCALED = 'cost-not-exact:per-channel-0bit-scaled-by-alive-fraction'
@@ -503,7 +505,9 @@ def model_exprs(c, o, fixed):
 
 
 def run(ctx):
+    gen_rejected = c05_gen.regenerate(ctx)
     built = ctx.build()
+    ctx.extra['generated_model'] = c05_gen.status(gen_rejected, built)
     ctx.rule = ('grammar networks of vlib/mps_gen.py x search mode {per-layer (1/2), per-channel, per-channel with 0-bit (1/3)} x precision tuples from {2,4,8} (+0), any order x random alpha with arg-max margin '
                 'x temperature in [0.05,20] x gumbel/hard/disable_shared_quantizers flags x phase {eval, training with hard non-Gumbel sampling} x cost specification {given at construction, re-assigned through the cost_specification setter: single -> dict, dict -> dict with the names re-bound / permuted} x tracing input {input_shape, input_example of batch 1..4: costs are per inference}; NE16 cases: activations (8,), kernels {1,3}. '
                 'separate streams: (r) one conv (c->c) / linear (h->h) module invoked twice, at the same or (after pooling) another resolution: per-invocation specs compared per call site; (a) pruned depthwise layer in the network-input group (open finding, own key); (b) disable_shared_quantizers=True x per-channel 0-bit x chain conv -> depthwise (Conv1d and Conv2d) where the producer prunes channels the depthwise layer keeps (cost DIFFERENCE when only the depthwise bits change must be own weights x delta bits) or vice versa. '
@@ -565,6 +569,9 @@ def run(ctx):
                 allex += ex
                 owner += [(k, t) for t in tags]
             vals = ctx.coq_eval_sharded('cases', ['Plinio.Model.MpsNet', 'Plinio.Model.MpsCost', 'Plinio.Model.MpsCostNet'], 'Open Scope Q_scope.\n', allex, shard=150)
+            gex, gidx = c05_gen.gen_exprs(good, allex, owner)     # the run_net cases, run by the model GENERATED from the source on this run
+            gvals = ctx.coq_eval_sharded('gcases', c05_gen.IMPORTS, 'Open Scope Q_scope.\n', gex, shard=150)
+            mism += c05_gen.differences(ctx, good, owner, gidx, vals, gvals)
             sums = {}
             for (k, t), v in zip(owner, vals):
                 if t == 'net':
@@ -589,7 +596,9 @@ def run(ctx):
                         'per-channel search with 0-bit: residual add with the network input in the same sharing group is not generated']
 
     if not ctx.violations:      # known (open) findings are always hit here: they must not hide a broken proof / model
-        if not built:
+        if c05_gen.report(ctx, gen_rejected, built):
+            pass
+        elif not built:
             ctx.violation('proof-broken', {'theorems': [o_[0] for o_ in ctx.obligations if not o_[1]], 'log': getattr(ctx, 'broken_log', '')[-3000:]}, 'Props/C05.v no longer checks', no_input=True)
         elif not model_ok:
             ctx.violation('model-eval-broken', {'notes': ctx.notes}, 'the model could not be evaluated', no_input=True)
